@@ -18,9 +18,6 @@ open Rare Rare.Expr
 
 /-! ### probing = running against the empty context -/
 
-/-- What `monitorContext` answers: "" to every look-up. -/
-def emptyCtx : Ctx := ⟨fun _ => [], fun _ => []⟩
-
 theorem probeN_of_run {α : Type} (c : Comp α) : ∀ (n : Nat) (a : α), c.run emptyCtx = .ok a →
     ∃ m, c.probeN n = .ok (a, m) := by
   induction c with
